@@ -910,3 +910,21 @@ v("d57-polars-concat-columns-drops-result", "C03", PM, '        res = pl.concat(
 v("d58-polars-group-order-arbitrary", "C19", PM, "        res = res.group_by(group_by, maintain_order=True).agg(produced_columns)", "        res = res.group_by(group_by).agg(produced_columns)")
 v("d58-polars-order-rows-sort-unstable", "C19", PM, "            nulls_last=True,\n            maintain_order=True,\n", "            nulls_last=True,\n")
 v("d58-polars-window-sort-unstable", "C19", PM, "                by=op.order_by, descending=reversed_cols, maintain_order=True\n", "                by=op.order_by, descending=reversed_cols\n")
+
+v("d48-twin-direct-return", "C08", PB,
+  "            res = res[declared_columns]\n        return res\n", "            return res[declared_columns]\n        return res\n", expect="silent")
+
+v("d40-twin-kind-test-eq-chain", "C13", PBL,
+  "                    contents.data in [\"tuplelist_comp\", \"set_comp\"]\n", "                    contents.data == \"tuplelist_comp\" or contents.data == \"set_comp\"\n", expect="silent")
+v("d54-twin-sort-key-inline", "C10", PB,
+  "                        by=order_cols, ascending=ascending, kind=\"stable\"", "                        by=[c for c in order_cols], ascending=ascending, kind=\"stable\"", expect="silent")
+v("d53-twin-limit-isinstance", "C11", VR,
+  "            if int(limit) != limit:\n                raise ValueError(\"limit must be an integer\")\n            limit = int(limit)\n",
+  "            if not isinstance(limit, int):\n                raise ValueError(\"limit must be an integer\")\n", expect="silent")
+v("d45-twin-enclose-always", "C04", SM,
+  "                if (sub_suffix is None) or (len(sub_suffix) < 1):\n                    return substr\n", "                if sub_suffix is None:\n                    return substr\n", expect="silent")
+v("d51-twin-polars-drop", "C08", PM,
+  "            res = res.select([c for c in res.columns if c not in op.column_deletions])\n        res = res.rename(op.column_remapping)",
+  "            res = res.drop([c for c in op.column_deletions])\n        res = res.rename(op.column_remapping)", expect="silent")
+v("d44-twin-leaf-copy-local", "C07", VR,
+  "            head=self.head,\n            limit_was=self.limit_was,\n", "            head=self.head if self.head is not None else None,\n            limit_was=self.limit_was,\n", expect="silent")
